@@ -1,5 +1,6 @@
 import JP.Lemmas.ScanBasic
 import JP.Cst
+import JP.Lemmas.ParseAux
 
 /-!
 # Transition tables of the scanner on the configurations met during a valid scan
